@@ -1,9 +1,10 @@
 SPECIFICATION Spec
 CONSTANTS
   Deviations <- AllDevs
-  InputMenu <- MenuQuick
+  InputMenu <- MenuVac
   MaxNodes = 3
   Vals <- ValsStd
   Rich = 1
+  Chain = TRUE
 INVARIANT Sound
 CHECK_DEADLOCK FALSE
